@@ -1,6 +1,8 @@
 # Much of this is borrowed from Python's ``Lib/dis.py``.
 
 import types
+
+from xdis.cross_types import int_repr
 from math import copysign
 from typing import Dict
 
@@ -139,5 +141,7 @@ def better_repr(v) -> str:
         from xdis.codetype import codeType2Portable
 
         return repr(codeType2Portable(v))
+    elif type(v) is int:
+        return int_repr(v)
     else:
         return repr(v)
